@@ -412,14 +412,24 @@ def end_to_end(s):
     if s.tier == "thorough":
         cases += [("diopside", {"elast": {"settings": {"mode_gamma": {"interpolator": "lsq_poly", "order": 3}}}}, "no-lattice"),
                   ("akimotoite", {"qha": {"settings": {"DT": 50, "DT_SAMPLE": 50, "NT": 12, "NTV": 41, "DELTA_P": 1.0, "DELTA_P_SAMPLE": 1.0}}}, None)]
+    # synthetic-but-physical sets: modes not in ascending order and crossing between volumes, non-integer weights, lattice ratios varying with volume, a q list that
+    # does not start at Gamma, other crystal systems
+    cases += [("synthetic", {"seed": s.seed + 1, "system": "orthorhombic"}, "synthetic"), ("synthetic", {"seed": s.seed + 2, "system": "monoclinic", "gamma_first": False, "nq": 2}, "synthetic")]
+    if s.tier == "thorough":
+        cases += [("synthetic", {"seed": s.seed + 3 + i, "system": sy, "lattice": bool(i % 2), "nq": 1 + i % 4, "na": 1 + i % 3, "nv": 6 + i % 5}, "synthetic")
+                  for i, sy in enumerate(["cubic", "trigonal7", "orthorhombic", "monoclinic"] * 3)]
     fails, evals, distinct = [], 0, 0
     for ex, settings, variant in cases:
         text = None
+        if variant == "synthetic":
+            ctx = calc_env.synthetic_case(**settings)
         if variant == "no-lattice":
             src = open(calc_env.example_dir(ex) + "/input02").read().split("\n")
             n = int(src[1].split()[1])
             text = "\n".join(src[:3 + n]) + "\n"
-        with calc_env.Case(ex, dict({"qha": {"settings": {"NT": 8, "DT": 200, "DT_SAMPLE": 200, "NTV": 31, "DELTA_P": 2.0, "DELTA_P_SAMPLE": 2.0}}}, **settings), elast_text=text) as case:
+        if variant != "synthetic":
+            ctx = calc_env.Case(ex, dict({"qha": {"settings": {"NT": 8, "DT": 200, "DT_SAMPLE": 200, "NTV": 31, "DELTA_P": 2.0, "DELTA_P_SAMPLE": 2.0}}}, **settings), elast_text=text)
+        with ctx as case:
             try:
                 calc = case.build()
             except Exception as e:
@@ -475,7 +485,7 @@ def end_to_end(s):
                                   "observed": "total - phonon of %r is not 1.5 x the unscaled static part / depends on temperature" % (key,),
                                   "expected": "static part linear in the table and independent of T"})
                     break
-    s.bounded_standin("C05.end_to_end(examples)", "%d data sets (two shipped examples, a copy without lattice block%s), every key, isothermal and adiabatic, relative tolerance 1e-7"
+    s.bounded_standin("C05.end_to_end(examples)", "%d data sets (two shipped examples, a copy without lattice block, synthetic sets with crossing unsorted modes / non-integer weights / q list off Gamma%s), every key, isothermal and adiabatic, relative tolerance 1e-7"
                       % (len(cases), ", other interpolator / grid" if s.tier == "thorough" else ""), evals, distinct, fails,
                       ["calculator.Calculator", FM + "modulus_isothermal", FM + "modulus_adiabatic"])
 
